@@ -1,53 +1,23 @@
 /-
 Line-protocol driver for the executable models (`lean_exe llbuild-model`).
 usage: llbuild-model <mode>   -- one op per stdin line, one canonical line per op on stdout.
-Imports Model + Generated only (no Mathlib), so that it links.
+Imports Model + Generated + Drv only (no Mathlib), so that it links.
+Each property contributes `LLBuild.Drv.<Id>.modes`.
 -/
-import LLBuild.Model.Bytes
-import LLBuild.Model.StalePath
+import LLBuild.Drv.Common
+import LLBuild.Drv.C14
 
-open LLBuild
+open LLBuild.Drv
 
-def fields (line : String) : List String :=
-  line.trimAscii.toString.splitOn " "
-
-def hexListDecode (s : String) : Option (List Bytes) :=
-  if s == "." || s == "" then some [] else (s.splitOn ",").mapM Hex.decode
-
-def hexListEncode (l : List Bytes) : String :=
-  if l.isEmpty then "." else ",".intercalate (l.map Hex.encode)
-
-def stepC14Prefix (line : String) : String :=
-  match fields line with
-  | [p, r] =>
-    match Hex.decode p, Hex.decode r with
-    | some p, some r => if StalePath.pathIsPrefixedByPath p r then "1" else "0"
-    | _, _ => "bad-op"
-  | _ => "bad-op"
-
-def stepC14Run (line : String) : String :=
-  match fields line with
-  | [a, b, c] =>
-    match hexListDecode a, hexListDecode b, hexListDecode c with
-    | some prior, some expected, some roots =>
-      let acts := (StalePath.actions prior expected roots).map fun
-        | .remove p => "R:" ++ Hex.encode p
-        | .warnRelative p => "WR:" ++ Hex.encode p
-        | .warnOutside p => "WO:" ++ Hex.encode p
-      "value=" ++ hexListEncode expected ++ " acts=" ++ (if acts.isEmpty then "." else ",".intercalate acts)
-    | _, _, _ => "bad-op"
-  | _ => "bad-op"
-
-partial def loop (h : IO.FS.Stream) (out : IO.FS.Stream) (f : String → String) : IO Unit := do
-  let line ← h.getLine
-  if line.isEmpty then return ()
-  out.putStrLn (f line)
-  loop h out f
+def allModes : List (String × Mode) :=
+  LLBuild.Drv.C14.modes
 
 def main (args : List String) : IO UInt32 := do
   let stdin ← IO.getStdin
   let stdout ← IO.getStdout
   match args with
-  | ["c14prefix"] => loop stdin stdout stepC14Prefix; return 0
-  | ["c14run"] => loop stdin stdout stepC14Run; return 0
-  | _ => IO.eprintln "unknown mode"; return 2
+  | [m] =>
+    match allModes.lookup m with
+    | some f => f stdin stdout; return 0
+    | none => IO.eprintln s!"unknown mode {m}"; return 2
+  | _ => IO.eprintln "usage: llbuild-model <mode>"; return 2
